@@ -67,7 +67,7 @@ def confirm_rules(v):
 
 
 def confirm_hash(v):
-    if v['clause'] == 'hash_not_u32' and not v.get('_searched'):
+    if v['clause'] in ('hash_not_u32', 'hash_digits', 'hash_length') and not v.get('_searched'):
         # the hash is an uninterpreted function in the encoding: the solver shows that *some* hash value breaks the
         # pipeline; find a real input with such a hash natively (about half of all inputs qualify for length 10)
         for cand in [''.join(chr(c) for c in v['value']), 'feature-2', 'main', 'a', 'b', 'c', 'dev', 'x1', 'hotfix/7']:
